@@ -130,11 +130,11 @@ def e2e(ctx):
                 # (folder creation is a resumable session too: aim at the file upload, i.e. past the first session)
                 ep, nth = ['session-put', 'get-file', 'patch', 'session-start'][nth % 4], 2 if nth % 4 in (0, 3) else 1
             plans.append((prov, 'remote', {'fault': kind, 'match': {'provider': prov, 'endpoint': ep, 'nth': nth}, 'after_bytes': 100}))
-        plans += [(prov, 'gpg-absent', None), (prov, 'gpg-dies', None), (prov, 'unreadable', None)]
+        plans += [(prov, 'gpg-absent', None), (prov, 'gpg-dies', None), (prov, 'gpg-killed', None), (prov, 'unreadable', None)]
     if ctx.tier == 'quick':
         plans += [('yandex', 'remote', {'fault': 'corrupt', 'match': {'provider': 'yandex', 'endpoint': 'upload-data', 'nth': 1}}),
                   ('google', 'remote', {'fault': 'status', 'match': {'provider': 'google', 'endpoint': 'get-file', 'nth': 1}}),
-                  ('google', 'gpg-dies', None), ('yandex', 'unreadable', None)]
+                  ('google', 'gpg-dies', None), ('yandex', 'unreadable', None), ('yandex', 'gpg-killed', None)]
     stats = {'cases': 0, 'first_failed_second_uploaded': 0, 'both_failed': 0, 'none_failed': 0}
     for idx, (prov, mode, rule) in enumerate(plans):
         e = uc.E2E(ctx, 300 + idx, prov, 'correct horse', nbackups=2)
@@ -153,6 +153,15 @@ def e2e(ctx):
                 cnt = os.path.join(d, 'count')
                 with open(os.path.join(d, 'gpg'), 'w') as f:
                     f.write('#!/bin/bash\nif [ ! -e %s ]; then : > %s; head -c 64 >/dev/null; head -c 3000 /dev/urandom; exit 2; fi\nexec /usr/bin/gpg "$@"\n' % (cnt, cnt))
+                os.chmod(os.path.join(d, 'gpg'), 0o755)
+                env['PATH'] = d + ':' + os.environ.get('PATH', '/usr/bin:/bin')
+            elif mode == 'gpg-killed':
+                # the first gpg emits the beginning of the real ciphertext, takes all its input, and is killed by a signal
+                d = os.path.join(e.w.base, 'fakebin')
+                os.makedirs(d, exist_ok=True)
+                cnt = os.path.join(d, 'count')
+                with open(os.path.join(d, 'gpg'), 'w') as f:
+                    f.write('#!/bin/bash\nif [ ! -e %s ]; then : > %s; /usr/bin/gpg "$@" | head -c 700; kill -KILL $$; fi\nexec /usr/bin/gpg "$@"\n' % (cnt, cnt))
                 os.chmod(os.path.join(d, 'gpg'), 0o755)
                 env['PATH'] = d + ':' + os.environ.get('PATH', '/usr/bin:/bin')
             elif mode == 'unreadable':
